@@ -59,7 +59,8 @@ def main():
         "# Seeded changes\n\nEach directory holds `patch.diff`, the agent's `demo.py` (exit 0 on the unchanged tree, non-zero with the change), its `notes.md`\n"
         "and `meta.json` (what was run to confirm it and which checks catch it).  Produced by fresh sub-agents that saw only the property text and a scratch\n"
         "worktree; confirmed with tools/seedeval.py (scratch copy of /repo, demo before/after, related existing tests with the change applied), re-run with\n"
-        "tools/seedrun.py after checks were strengthened.  Ids ending in -A/-B are the first wave, -C/-D the second (those agents were told which ideas had been used).\n"
+        "tools/seedrun.py after checks were strengthened.  Ids ending in -A/-B are the first wave, -C/-D the second (those agents were told which ideas had been used),\n"
+        "-E/-F the third (run after the generator audit, DESIGN.md 8.3; told the ideas of both earlier waves).\n"
         "One proposed change (C12-B, Xcov Amat without hbar) was rejected: two existing tests fail with it.\n\n" + txt)
     sys.stdout.write(txt)
 
